@@ -210,4 +210,23 @@ def runSched (force : Bool) : LSt → List Bool → LSt
 /-- a read is blocked inside `Transport.read`: holds the lock, nothing to return -/
 def blockedRead : LSt := ⟨.inRead, .idle, .reader, false, false⟩
 
+/-- progress of the closer -/
+def cprog : CPc → Nat
+  | .idle => 0 | .waitLock => 0 | .closing => 1 | .done => 2
+
+def nCloser : List Bool → Nat
+  | [] => 0
+  | true :: r => nCloser r
+  | false :: r => nCloser r + 1
+
+/-- invariant of forced close from a blocked read -/
+def finv (s : LSt) : Prop :=
+  (s.r = .inRead ∨ s.r = .done) ∧ s.c ≠ .waitLock ∧ (s.c = .done → s.closed = true)
+
+
+/-- `cs` is a segmentation of `stream`: non-empty pieces whose concatenation is the stream -/
+def IsSegmentation (cs : List Bytes) (stream : Bytes) : Prop :=
+  cs.flatten = stream ∧ ∀ c ∈ cs, c ≠ []
+
+
 end Scrapli.Pipe
